@@ -20,7 +20,15 @@ def rprog(rng, model, N, L):
 
 def run_impl(cls, N, prog, l, mode, variant='orig', obj='list', direction='forward'):
     """build, optionally copy/compose/compile, run; returns rows (or state)"""
-    if variant == 'halves':
+    if variant == 'stale_halves' and cls == 'CliffordCircuit':
+        h = len(prog) // 2
+        c = NP.build_circuit(N, prog[:h], cls)
+        c2 = NP.build_circuit(N, prog[h:h + 1], cls)
+        c2.compile()
+        for ins in prog[h + 1:]:
+            c2.take(NP.mk_gate(ins[1]))
+        c.compose(c2)
+    elif variant in ('halves', 'stale_halves'):
         h = len(prog) // 2
         c = NP.build_circuit(N, prog[:h], cls)
         c2 = NP.build_circuit(N, prog[h:], cls)
@@ -207,6 +215,18 @@ def c_torch_prog(ctx, args):
             h = len(prog) // 2
             c = TT.build_circuit(N, prog[:h])
             c.compose(TT.build_circuit(N, prog[h:]))
+        elif variant == 'stale_halves':
+            # the second half is compiled EARLY (after its first gate), extended afterwards, and only then composed in: its compiled maps are out of date by then
+            h = len(prog) // 2
+            c = TT.build_circuit(N, prog[:h])
+            tail = TT.build_circuit(N, prog[h:h + 1]) if len(prog) > h else TT.build_circuit(N, [])
+            if len(prog) > h:
+                tail.N = N
+                tail.compile()
+            for ins in prog[h + 1:]:
+                tail.take(TT.mk_gate(ins[1]))
+            c.N = N
+            c.compose(tail)
         elif variant == 'copy_extend':
             h = max(1, len(prog) // 2)
             base = TT.build_circuit(N, prog[:h])
@@ -263,6 +283,15 @@ def run(ctx):
     # history corpus: compile, add a gate that slides into an already compiled layer, compile again
     do(ctx, 'recompile', ['CliffordCircuit', 3, [[0, [[0], [0, [[1, 0], 0]]]]], [[0, [[2], [0, [[1, 1], 0]]]]], [[[0, 0, 0, 0, 1, 0], 2], [[0, 1, 0, 0, 0, 1], 1]], 2, 'take', 'forward'], nontrivial='rc0', sample=True)
     ctx.res.exhaustive = True
+    # registers beyond one machine word, gates on the qubits next to the word boundaries (overlaps that a packed support would not see)
+    for N in (65, 66, 130):
+        pool = gen.edge_pool(N)
+        for rep in range(2):
+            prog = [[0, gen.rgate(rng, ctx.model, N, kinds=('gen', 'named', 'fwd'), pool=pool)] for _ in range(rng.randint(4, 9))]
+            l = gen.rplist_on(rng, N, 3, pool)
+            for mode in (0, 1, 2):
+                do(ctx, 'prog_corr', ['CliffordCircuit', N, prog, l, mode, 'orig'], nontrivial=('edge', N, rep, mode))
+            do(ctx, 'prog_seq', [rng.choice(['CliffordCircuit', 'Circuit']), N, prog, gen.rtableau(rng, ctx.model, N, depth=3), 2, 'orig', 'state'], nontrivial=('edges', N, rep))
     # LARGE registers: byte, word and cache-line boundaries of every packed or vectorised representation (8, 9, 16, 17, 33, 64, 65 qubits); model correspondence only
     for N in gen.BIG[:5]:
         prog = rprog(rng, ctx.model, N, rng.randint(3, 8))
@@ -277,7 +306,7 @@ def run(ctx):
         l = gen.rplist(rng, N, 3)
         cls = rng.choice(['CliffordCircuit', 'Circuit'])
         mode = rng.choice([0, 1, 2])
-        variant = rng.choice(['orig', 'orig', 'copy', 'halves'])
+        variant = rng.choice(['orig', 'orig', 'copy', 'halves', 'stale_halves'])
         nlayers = len(ctx.model.call('circ_layers', mprog(prog)))
         nt = ('p', it) if nlayers >= 2 and any(a[1] % 2 for a in l) else None
         do(ctx, 'prog_corr', [cls, N, prog, l, mode, variant], nontrivial=nt, sample=(it < 2))
@@ -305,4 +334,4 @@ def run(ctx):
     for it in range(int(80 * B)):
         N = rng.randint(1, 5)
         prog = rprog(rng, ctx.model, N, rng.randint(1, 7))
-        do(ctx, 'torch_prog', [N, prog, gen.rplist(rng, N, 3), rng.choice([0, 0, 1, 2]), rng.choice(['orig', 'copy', 'halves', 'copy_extend']), rng.choice(['forward', 'backward'])], nontrivial=('tp', it))
+        do(ctx, 'torch_prog', [N, prog, gen.rplist(rng, N, 3), rng.choice([0, 0, 1, 2]), rng.choice(['orig', 'copy', 'halves', 'stale_halves', 'copy_extend']), rng.choice(['forward', 'backward'])], nontrivial=('tp', it))
